@@ -55,6 +55,14 @@ def _make_views():
             def only2(self):
                 return 'tok-view-2-only2'
             V.only2 = only2
+
+            # a public callable that is not a plain function object: a method behind functools.lru_cache
+            import functools
+
+            @functools.lru_cache(maxsize=None)
+            def cached(self):
+                return 'tok-view-2-cached'
+            V.cached = cached
         views.append(V)
 
     # a view that INHERITS its public methods from another view (and adds one of its own)
@@ -83,7 +91,7 @@ def _make_views():
 
 FUNCS = _make_functions()
 VIEWS = _make_views()
-VIEW_PUBLIC = {0: ['get', 'put', 'stat'], 1: ['get', 'put', 'stat'], 2: ['get', 'put', 'stat', 'only2'], 3: ['get', 'put', 'stat', 'extra'],
+VIEW_PUBLIC = {0: ['get', 'put', 'stat'], 1: ['get', 'put', 'stat'], 2: ['get', 'put', 'stat', 'only2', 'cached'], 3: ['get', 'put', 'stat', 'extra'],
                4: ['info', 'get'], 5: ['info', 'get']}
 # tokens of view 3: 'get' and 'extra' are its own, 'put' and 'stat' are inherited from view 0
 VIEW3_TOKENS = {'get': 'tok-view-3-get', 'extra': 'tok-view-3-extra', 'put': 'tok-view-0-put', 'stat': 'tok-view-0-stat'}
@@ -103,10 +111,10 @@ class C15(Check):
         "add(f, name) (names incl. dotted ones and names colliding with other registrations), add_methods(f, g), view(V), view(V, prefix), "
         "merge(r_i into r_j) (i != j, chains up to 3 levels; merged content is a snapshot), then attachment to a sync or async dispatcher via "
         "add_methods(registry) / add(f, name) / view(V) / one add_methods(...) call mixing registries, functions and Method objects in any argument order; functions return unique tokens, two functions share one __name__, views have public "
-        "methods, a staticmethod, _private and __dunder__ methods and non-callable attributes; one view inherits its public methods from another, two sibling views inherit all of theirs from a common base. Oracle: a dict model name -> token built from "
+        "methods, a staticmethod, a method behind functools.lru_cache (callable, not a plain function), _private and __dunder__ methods and non-callable attributes; one view inherits its public methods from another, two sibling views inherit all of theirs from a common base. Oracle: a dict model name -> token built from "
         "the property's naming rule; after attach every model name dispatches to its token, every probed other name (one edit away, prefix "
         "dropped / added, private and dunder member names with and without prefixes, bare un-prefixed names) yields -32601, and the "
-        "dispatcher's registry key set equals the model's. non-trivial = the history merges a prefixed registry or registers a view, and "
+        "dispatcher's registry key set equals the model's; the attachments are then repeated on a second dispatcher that is probed before the first and after every attach step (a name answers -32601 until registered, its latest registration afterwards). non-trivial = the history merges a prefixed registry or registers a view, and "
         "re-registers at least one name; distinct = distinct spec."
     )
     assumptions = [
@@ -115,7 +123,7 @@ class C15(Check):
     trusted_base = ['dict model in checks/c15.py']
     required_classes = ['op/add', 'op/add-name', 'op/add_methods', 'op/view', 'op/view-prefix', 'op/merge', 'merge/prefixed-into-prefixed',
                         'merge/depth>=2', 'replaced', 'attach/registry', 'attach/add', 'attach/view', 'attach/mixed', 'dispatcher/sync', 'dispatcher/async', 'view/inherited',
-                        'view/siblings-sharing-inherited-methods']
+                        'view/siblings-sharing-inherited-methods', 'serving-while-registering/name-changed-between-probes']
 
     def strategy(self, tier: str):
         s_fn = st.integers(0, len(FUNCS) - 1)
@@ -222,45 +230,46 @@ class C15(Check):
                 if depth[dst] >= 2:
                     classes.add('merge/depth>=2')
 
+        def do_attach(dd: Any, att: List[Any]) -> None:
+            if att[0] == 'registry':
+                dd.add_methods(regs[att[1] % nreg])
+            elif att[0] == 'add':
+                dd.add(FUNCS[att[1]], att[2])
+            elif att[0] == 'mixed':
+                dd.add_methods(*[regs[i[1] % nreg] if i[0] == 'registry' else FUNCS[i[1]] if i[0] == 'func' else pjrpc.server.Method(FUNCS[i[1]], name=i[2])
+                                 for i in att[1]])
+            else:
+                dd.view(VIEWS[att[1]])
+
         d = pjrpc.server.AsyncDispatcher() if kind == 'async' else pjrpc.server.Dispatcher()
         model: Dict[str, Any] = {}
+        snapshots: List[Dict[str, Any]] = []
         for att in spec['attach']:
+            do_attach(d, att)
             if att[0] == 'registry':
                 r = att[1] % nreg
-                d.add_methods(regs[r])
                 for name, tok in models[r].items():
                     put(model, name, tok)
                 classes.add('attach/registry')
             elif att[0] == 'add':
-                d.add(FUNCS[att[1]], att[2])
                 put(model, att[2] or FUNC_NAMES[att[1]], f'tok-fn-{att[1]}')
                 classes.add('attach/add')
             elif att[0] == 'mixed':
-                args = []
-                before = dict(model)
                 for item in att[1]:
                     if item[0] == 'registry':
-                        args.append(regs[item[1] % nreg])
                         for name, tok in models[item[1] % nreg].items():
                             put(model, name, tok)
                     elif item[0] == 'func':
-                        args.append(FUNCS[item[1]])
                         put(model, FUNC_NAMES[item[1]], f'tok-fn-{item[1]}')
                     else:
-                        args.append(pjrpc.server.Method(FUNCS[item[1]], name=item[2]))
                         put(model, item[2], f'tok-fn-{item[1]}')
-                d.add_methods(*args)
                 classes.add('attach/mixed')
-                kinds_seen = [i[0] for i in att[1]]
-                if 'registry' in kinds_seen[1:] and any(model.get(n) != before.get(n) and n in models[i[1] % nreg]
-                                                        for i in att[1] if i[0] == 'registry' for n in model):
-                    classes.add('attach/mixed/registry-after-function')
             else:
-                d.view(VIEWS[att[1]])
                 for m, tok in view_tokens(att[1]):
                     put(model, m, tok)
                 classes.add('attach/view')
                 uses_view = True
+            snapshots.append(dict(model))
         if replaced:
             classes.add('replaced')
 
@@ -308,6 +317,27 @@ class C15(Check):
             if resp.get('error', {}).get('code') != -32601:
                 which = 'private-member-reachable' if name.rsplit('.', 1)[-1].startswith('_') or name.rsplit('.', 1)[-1] in ('attr',) else 'unregistered-name-reachable'
                 discs.append(Disc(f"C15/{which}", f"{name!r} -> {jg.short(resp)} | {where}"))
+        # the same attachments on a second dispatcher that is SERVING in between: before anything is registered and after every step each
+        # name of the final model is requested - a name answers -32601 until it is registered and its latest registration afterwards
+        if not discs and model:
+            d2 = pjrpc.server.AsyncDispatcher() if kind == 'async' else pjrpc.server.Dispatcher()
+            d = d2
+            steps = [({}, 'before any registration')] + [(snap, f'after attach step {i}') for i, snap in enumerate(snapshots)]
+            for i, (snap, label) in enumerate(steps):
+                if i > 0:
+                    do_attach(d2, spec['attach'][i - 1])
+                for name in model:
+                    n_probes += 1
+                    resp = probe(name)
+                    if name not in snap:
+                        if resp.get('error', {}).get('code') != -32601:
+                            discs.append(Disc("C15/serving-while-registering/unregistered-name-reachable", f"{name!r} {label}: {jg.short(resp)} | {where}"))
+                    elif snap[name] is not None and resp.get('result') != snap[name]:
+                        discs.append(Disc("C15/serving-while-registering/stale-answer", f"{name!r} {label}: expected {snap[name]!r} got {jg.short(resp)} | {where}"))
+                if discs:
+                    break
+            if len(snapshots) >= 2 and any(snapshots[-1].get(n) != snapshots[0].get(n) for n in model):
+                classes.add('serving-while-registering/name-changed-between-probes')
         nontrivial = (merged_prefixed or uses_view) and replaced
         return Outcome(discs, nontrivial, sorted(classes), evaluations=n_probes)
 
